@@ -29,11 +29,13 @@ LEVEL_NOTE = ('Photometry values from a finite alphabet (fixed + seed-derived); 
 RULE = ("cases: (mode, grid, n, chunk of flag vectors); executions: ~12 Fitter.fit calls per vector (base, 4 junk values, 5 limit variants, flag-4 rewrite), "
         "each compared on every model; non-trivial = distinct (mode, grid, flag vector) inside the non-singular domain that contain an ignored point, a limit or a flag-1 point")
 ASSUMPTIONS = ["finite value alphabets", "singular regressions are outside the quantifier"]
-REQUIRED_CLASSES = ['junk-under-0', 'junk-under-9', 'nonpositive-junk-under-9', 'limit-lower-violated', 'limit-upper-violated', 'limit-not-violated',
+REQUIRED_CLASSES = ['limits-different-confidences', 'reflag-in-place', 'junk-under-0', 'junk-under-9', 'nonpositive-junk-under-9', 'limit-lower-violated', 'limit-upper-violated', 'limit-not-violated',
                     'conf0-equals-flag0', 'conf1-violated-1e30', 'flag4-equivalence', 'mode-2d', 'mode-3d', 'singular-counted']
 TIMEOUT = {'quick': 300, 'thorough': 1800}
 
 JUNK = [-999.0, 0.0, 1e30, -1e-30]
+# (flux, error) pairs put under ignored positions: the same junk in both columns, and junk flux with a sane error
+JUNK_PAIRS = [(j, j) for j in JUNK] + [(0.0, 0.1), (-999.0, 0.1), (1e30, 1e-3)]
 BANDSETS = {1: ['B1'], 2: ['B1', 'B3'], 3: ['B1', 'B3', 'B5'], 4: ['B1', 'B2', 'B4', 'B5'], 5: ['B1', 'B2', 'B3', 'B4', 'B5']}
 CHUNK = 54
 
@@ -138,11 +140,11 @@ def run_case(ctx, case, rec, d):
             ign = [j for j, v in enumerate(fv) if v in (0, 9)]
             if ign:
                 interesting = True
-                for junk in JUNK:
+                for junk, junk_e in JUNK_PAIRS:
                     f2, e2 = fl.copy(), er.copy()
                     for j in ign:
                         f2[j] = junk
-                        e2[j] = junk
+                        e2[j] = junk_e
                     r = _by_name(fit(fv, f2, e2), names)
                     rec.trans()
                     rec.ev(len(names))
@@ -155,11 +157,11 @@ def run_case(ctx, case, rec, d):
                     if not _eq_exact(b, r):
                         resp = []
                         for wflag in (0, 9):
-                            if wflag in fv and not _eq_exact(b, _by_name(fit(fv, *_junk_only(fv, fl, er, junk, wflag)), names)):
+                            if wflag in fv and not _eq_exact(b, _by_name(fit(fv, *_junk_only(fv, fl, er, junk, wflag, junk_e)), names)):
                                 resp.append(str(wflag))
                         which = '+'.join(resp) or 'combined'
                         sign = 'nonpositive' if junk <= 0 else 'positive'
-                        rec.violation('ignored|flag-%s|%s-junk' % (which, sign), dict(sub0, junk=junk),
+                        rec.violation('ignored|flag-%s|%s-junk' % (which, sign), dict(sub0, junk=junk, junk_err=junk_e),
                                       {'problem': 'outputs change when ignored points carry %r' % junk, 'mode': mode,
                                        'base_av': b[0], 'junk_av': r[0], 'base_chi2': b[2], 'junk_chi2': r[2]})
             # ---- (b) limits
@@ -173,9 +175,14 @@ def run_case(ctx, case, rec, d):
                     pred = logm + r0[0][:, None] * k[None, :] - 2.0 * r0[1][:, None]
                 else:
                     pred = r0[3]           # predicted log fluxes of the limits-as-0 run (alignment judged in C04)
-                for conf in (0.0, 0.3, 0.9, 1.0, None):
+                for conf in (0.0, 0.3, 0.9, 1.0, None, 'mixed'):
                     e2 = er.copy()
-                    if conf is not None:
+                    if conf == 'mixed':        # a different confidence on every limit
+                        for q, j in enumerate(lim):
+                            e2[j] = [0.25, 0.85, 0.5, 0.95, 0.1][q % 5]
+                        if len(lim) >= 2:
+                            rec.cls('limits-different-confidences')
+                    elif conf is not None:
                         for j in lim:
                             e2[j] = conf
                     info_c = fit(fv, fl, e2)
@@ -256,6 +263,36 @@ def run_case(ctx, case, rec, d):
                     ok = _close(b, r, 1e-12)
                 if not ok:
                     rec.violation('flag4|not-equivalent', sub0, {'mode': mode, 'base_av': b[0], 'flag4_av': r[0], 'base_sc': b[1], 'flag4_sc': r[1], 'base_chi2': b[2], 'flag4_chi2': r[2]})
+            # ---- (d) the same Source object re-flagged / re-valued in place between fits must behave like a fresh one
+            if n >= 2 and ps == 0:
+                s_live = fc.make_source(fv, fl, er)
+                fitter.fit(s_live)
+                rec.trans()
+                for jpos in range(n):
+                    for newflag in (0, 9, 1):
+                        if fv[jpos] == newflag:
+                            continue
+                        f2 = list(fv)
+                        f2[jpos] = newflag
+                        fit2 = [j for j, v in enumerate(f2) if v in (1, 4)]
+                        ok_dom = (len(fit2) >= 2 and (max(k[fit2]) - min(k[fit2])) > 0.02) if mode == '2d' else any(abs(k[j]) > 0.02 for j in fit2)
+                        if not ok_dom or (newflag == 1 and fv[jpos] in (2, 3, 4)):
+                            continue
+                        s_live.valid = np.array(f2)
+                        r_live = _by_name(fitter.fit(s_live), names)
+                        r_fresh = _by_name(fit(tuple(f2), fl, er), names)
+                        rec.trans(2)
+                        rec.ev(len(names))
+                        rec.cls('reflag-in-place')
+                        interesting = True
+                        if not _eq_exact(r_live, r_fresh):
+                            rec.violation('reflag|stale-state-in-source', dict(sub0, pos=jpos, newflag=newflag),
+                                          {'problem': 'a Source whose flags were re-assigned gives a different fit than a fresh Source with the same content',
+                                           'live_av': r_live[0], 'fresh_av': r_fresh[0]})
+                        s_live.valid = np.array(fv)
+                        # values re-assigned in place as well
+                        s_live.flux = fl * 1.0
+                        s_live.error = er * 1.0
             if interesting:
                 rec.nontriv((cfg, fv))
                 rec.trace()
@@ -264,10 +301,10 @@ def run_case(ctx, case, rec, d):
                 sampled = True
 
 
-def _junk_only(fv, fl, er, junk, which):
+def _junk_only(fv, fl, er, junk, which, junk_e=None):
     f2, e2 = fl.copy(), er.copy()
     for j, v in enumerate(fv):
         if v == which:
             f2[j] = junk
-            e2[j] = junk
+            e2[j] = junk if junk_e is None else junk_e
     return f2, e2
